@@ -275,6 +275,13 @@ func c02Session(r *mon.Run, jr *rand.Rand, s, s2 *session) {
 				}
 			}
 			ok, pv, stack := c02Verify(list, pks, ctx, nonce, issig, nil)
+			if !ok && pv == nil {
+				// the refused objects presented once more under the same wrong tuple (a verifier retrying)
+				ok, pv, stack = c02Verify(list, pks, ctx, nonce, issig, nil)
+				if ok {
+					desc += " (accepted at the second attempt on the refused objects)"
+				}
+			}
 			fam := family
 			if mode == "warm" {
 				fam += "/warm"
